@@ -101,3 +101,9 @@ CHECKS.update({
     "C16": ("6/C16", "Store level: logs of 2-4 events with a StopEvent at every position (or none) appended at explorer-chosen points x 1-2 subscribers with every cursor -1..n+1 started at explorer-chosen points and pulling one item at a time (slow consumers suspended mid-batch) x poll-timer firings on SQLite - all interleavings on the real MemoryWorkflowStore and SqliteWorkflowStore (DB file). API level: the real _WorkflowAPI._stream_events / _resolve_event_stream over a real store with after_sequence now / -1..n, Last-Event-ID, include_internal on/off, 0..n events present at request time, and disconnect-after-k + reconnect; yielded sequences / SSE ids compared with 'everything above the cursor up to and including the first terminal event, once, in order'.",
             "Poll-timer firings bounded to 2 per execution (polling is cyclic). The starlette transport is replaced by a data-holder stand-in (handlers are called directly). Fix 32b4302 repaired the Memory-store cursor defect this check found.", SCHED_TECH),
 })
+
+FAULT_TECH = "exhaustive fault-point enumeration: the real client runs over a mock transport fed by the real server handler, with a connection drop injected at every byte offset of every response (and every pair of offsets), each run compared with the fault-free reference"
+CHECKS.update({
+    "C17": ("6/C17", "Streams of 1-4 events (with/without internal events) in a real MemoryWorkflowStore, served by the real _WorkflowAPI._stream_events for whatever cursor the client sends; the real WorkflowClient.get_workflow_events over httpx.MockTransport on the virtual loop with httpx.ReadError at every byte offset of the response (1 drop; every pair of offsets for 2 consecutive drops on the smaller configurations), chunk sizes 1/7/whole, heartbeat comments interleaved, every numeric start cursor, and 1-4 consecutive connection failures; yielded events and last_sequence at every yield compared with 'each event after the cursor once, in order'.",
+            "No ASGI/TCP transport (MockTransport + Request holder). Completed runs only (a live run's stream never ends).", FAULT_TECH),
+})
